@@ -631,6 +631,15 @@ End Sizes.
     - intros a mp k. rewrite Dm, (sortmerge_den _ _ O01 E1). unfold meas_upto. cbn [flat_map]. rewrite !den_app. tauto.
   Qed.
 
+  Lemma seen_after_den files measured a m k :
+    den (seen_after files measured) a m k <-> den measured a m k.
+  Proof.
+    unfold seen_after. destruct measured as [|r [|r' t]]; try reflexivity.
+    destruct (sm files); try reflexivity. destruct (touched a0 r); try reflexivity.
+    rewrite !den_cons, !den_nil, hit_set_ranges. unfold hit.
+    rewrite (in_ranges_perm_iff _ _ k (sort_off_perm (rranges r))). tauto.
+  Qed.
+
   Theorem final_exact files l out :
     Distinguishable (files ++ meas_upto l) -> NoOverflow (files ++ meas_upto l) -> Forall pointed files ->
     l <> [] -> vfc (Ok files) l = Ok out ->
@@ -664,7 +673,7 @@ End Sizes.
     { intros a m k. rewrite Dm, den_nil. tauto. }
     assert (Dn' : forall a m k, den nm a m k <-> den files a m k /\ ~ den (meas_upto l) a m k).
     { intros a m k. rewrite Dn, Dm'. tauto. }
-    exists nm, measured. split; [exact Dm'|]. split; [exact Dn'|]. split.
+    exists nm, (seen_after files measured). split; [intros a m k; rewrite seen_after_den; apply Dm'|]. split; [exact Dn'|]. split.
     - split.
       + intros -> a m k Hf. destruct (denb (meas_upto l) a m k) eqn:B; [apply denb_spec; exact B|].
         apply denb_false in B. exfalso. assert (H : den [] a m k) by (apply Dn'; tauto). rewrite den_nil in H. exact H.
